@@ -1129,6 +1129,9 @@ void gen_plan(Rng &r, const GenCfg &cfg, Plan &plan) {
         uint32_t top = 64;
         int nops = 1 + r.below(cfg.max_ops);
         Rng tr = r.sub(1000 + t);
+        // one thread in six runs with a rounding mode other than the default: per-thread caller state that the library
+        // must neither change nor capture for others
+        { Rng fr = r.sub(2000 + t); if (fr.chance(1, 6)) tp.fe_round = 1 + fr.below(3); }
         for (int i = 0; i < nops && (int)tp.ops.size() < cfg.max_ops + 4; i++) {
             int fam = fams[tr.below((uint32_t)fams.size())];
             GenCfg c2 = cfg;
@@ -1161,6 +1164,7 @@ std::string plan_to_text(const Plan &p) {
     o << "locale " << p.locale << "\n";
     for (size_t t = 0; t < p.tasks.size(); t++) {
         o << "task " << t << " arena_seed " << p.tasks[t].arena_seed << " parent " << p.tasks[t].parent << "\n";
+        if (p.tasks[t].fe_round) o << "fe " << p.tasks[t].fe_round << "\n";
         for (const Op &op : p.tasks[t].ops) {
             if (op.fn >= 0 && op.fn < FN_COUNT) o << "op " << g_fn[op.fn].name;
             else o << "op #" << op.fn;
@@ -1204,6 +1208,8 @@ bool parse_replay(const std::string &text, std::map<std::string, std::string> &m
             p.tasks.push_back(t);
             tp = &p.tasks.back();
             op = nullptr;
+        } else if (kw == "fe" && tp) {
+            ls >> tp->fe_round;
         } else if (kw == "op" && tp) {
             std::string nm;
             ls >> nm;
